@@ -354,13 +354,15 @@ def Refusal.name : Refusal → String
   | .emptyName => "empty-name" | .missingHyphen => "missing-hyphen" | .negative => "negative"
   | .nonNumeric => "non-numeric" | .reversed => "reversed" | .unknownUnit => "unknown-unit"
 
+/-- skip an optional `.digits` -/
+def skipFraction : Str → Str
+  | '.' :: r => r.dropWhile isDigit
+  | r1 => r1
+
 /-- `digits[,digits][.digits]letters` where the letters are not a unit -/
 def badUnit (s : Str) : Bool :=
   (match s with | [] => false | c :: _ => isDigit c) &&
-  (let r1 := s.dropWhile isDigitComma
-   let r2 := match r1 with
-     | '.' :: r => r.dropWhile isDigit
-     | _ => r1
+  (let r2 := skipFraction (s.dropWhile isDigitComma)
    r2 ≠ [] && r2.all isLetter && (unitExp (r2.map upper)).isNone)
 
 /-- L0: a conservative recogniser of the malformed classes (strings with exactly one `:` after a
